@@ -516,7 +516,11 @@ impl AsyncGenerator {
         generator.borrow_mut().data_mut().context = Some(generator_context);
 
         // 8. Assert: result is never an abrupt completion.
-        assert!(!result.is_throw_completion());
+        // NOTE: the body turns every exception into a rejection, so the only errors that
+        //       get here are the ones scripts cannot catch (runtime limits).
+        if result.is_throw_completion() {
+            return result.consume().map(drop);
+        }
 
         // 9. Assert: When we return here, genContext has already been removed from the execution context stack and
         //    callerContext is the currently running execution context.
